@@ -49,7 +49,11 @@ pub trait ChainStore: Send + Sync + Sized {
             let raw_block = packed::BlockReader::from_compatible_slice(&raw_block)
                 .expect("checked data")
                 .to_entity();
-            return Some(raw_block.into_view());
+            // the freezer is indexed by number: a side-chain block at a frozen height
+            // is not the frozen block, it is still in the key-value store
+            if raw_block.calc_header_hash() == *h {
+                return Some(raw_block.into_view());
+            }
         }
         let body = self.get_block_body(h);
         let uncles = self
@@ -80,7 +84,12 @@ pub trait ChainStore: Send + Sync + Sized {
             let raw_block = packed::BlockReader::from_compatible_slice(&raw_block)
                 .ok()?
                 .to_entity();
-            Some(raw_block.into_view())
+            // the freezer is indexed by number: only the block with this hash is the frozen one
+            if raw_block.calc_header_hash() == *h {
+                Some(raw_block.into_view())
+            } else {
+                None
+            }
         } else {
             None
         }
